@@ -209,6 +209,7 @@ func (w *World) Stop() error {
 	w.cancel()
 	w.L.PushTimeout()
 	for _, c := range w.Conns {
+		c.ReleaseWrites()
 		if !c.Closed() {
 			c.FeedEOF()
 		}
